@@ -177,8 +177,10 @@ int jx_check_idle_baseline(const char *keyprefix)
 		n++;
 	}
 	if (sim_open_fds() != sim_base.open_fds) {
-		snprintf(key, sizeof(key), "%sdescriptors-not-back-at-baseline", keyprefix);
-		xp_finding(key, "after all connections are gone %d descriptor(s) are open (idle baseline %d)", sim_open_fds(), sim_base.open_fds);
+		char kinds[120];
+		sim_open_fd_summary(kinds, sizeof(kinds));
+		snprintf(key, sizeof(key), "%sdescriptors-not-back-at-baseline:%s", keyprefix, kinds);
+		xp_finding(key, "after all connections are gone %d descriptor(s) are open (idle baseline %d; open kinds: %s)", sim_open_fds(), sim_base.open_fds, kinds);
 		n++;
 	}
 	if (cjet_get_alloc_size() != sim_base.alloc_size) {
@@ -210,9 +212,26 @@ int jx_sigterm_and_check(const char *keyprefix)
 		xp_finding(key, "after SIGTERM main() returned %d", sim_daemon_exit_code());
 		n++;
 	}
+	/* signature of one known shape: connections still in their HTTP handshake (no peer yet) are not reachable by the shutdown sequence */
+	int cids[SIM_MAXCONN];
+	int nopen = sim_open_conn_cids(cids, SIM_MAXCONN);
+	int pending_http = 0;
+	for (int i = 0; i < nopen; i++) {
+		struct client *c = &clients[cids[i]];
+		if (c->used && (c->kind == CL_BYTES || c->kind == CL_WS) && c->http_status == 0) {
+			pending_http++;
+		}
+	}
+	if (pending_http > 0 && sim_open_fds() == pending_http && sim_heap_live() == 2L * pending_http && nopen == pending_http) {
+		snprintf(key, sizeof(key), "%shttp-connection-before-upgrade-not-released", keyprefix);
+		xp_finding(key, "main() returned while %d connection(s) that had not completed their HTTP upgrade were still open (descriptor, http_connection and buffered_socket not released)", pending_http);
+		return n + 1;
+	}
 	if (sim_open_fds() != 0) {
-		snprintf(key, sizeof(key), "%sdescriptors-open-at-exit", keyprefix);
-		xp_finding(key, "main() returned with %d descriptor(s) still open", sim_open_fds());
+		char kinds[120];
+		sim_open_fd_summary(kinds, sizeof(kinds));
+		snprintf(key, sizeof(key), "%sdescriptors-open-at-exit:%s", keyprefix, kinds);
+		xp_finding(key, "main() returned with %d descriptor(s) still open (%s)", sim_open_fds(), kinds);
 		n++;
 	}
 	if (cjet_get_alloc_size() != 0) {
